@@ -977,6 +977,7 @@ package bpmn
 // activeFlowsInCohort(id): exactly the tracked tokens located where `id` is located (none if `id` is not tracked).
 //@ func (*flowTracker).activeFlowsInCohort
 //@   prop C05
+//@   flag countcalls
 //@   modifies nothing
 //@   flag emits none
 //@   ensures [untracked-has-no-cohort] !has(tracker.flows, flowId) ==> len(result) == 0
@@ -1004,6 +1005,7 @@ package bpmn
 
 //@ func (*inclusiveGateway).trySync
 //@   prop C05 C01
+//@   flag countcalls
 //@   requires gw.activated != nil
 //@   modifies gw.synchronized
 //@   ensures [releases-no-sender] count(Call, code("tracing|ISenderHandle.Done")) == old(count(Call, code("tracing|ISenderHandle.Done")))
@@ -1051,6 +1053,10 @@ package bpmn
 //@     invariant activity != ctxdone(ctx)
 //@     invariant gw.wiring != nil && gw.flowTracker != nil && gw.wiring == old(gw.wiring) && gw.mch == old(gw.mch) && gw.element == old(gw.element) &&
 //@               gw.defaultSequenceFlow == old(gw.defaultSequenceFlow) && gw.nonDefaultSequenceFlows == old(gw.nonDefaultSequenceFlows) && gw.flowTracker == old(gw.flowTracker)
+//@     iter ensures [a-wake-up-while-waiting-to-join-asks-the-tracker-again-and-retries-the-join-however-many-tokens-have-arrived]
+//@       isRecv(ev(old(evlen))) && evch(ev(old(evlen))) == activity && !old(gw.synchronized) && old(gw.activated) != nil ==>
+//@         ndirect(code("(*flowTracker).activeFlowsInCohort")) == old(ndirect(code("(*flowTracker).activeFlowsInCohort"))) + 1 &&
+//@         ndirect(code("(*inclusiveGateway).trySync")) == old(ndirect(code("(*inclusiveGateway).trySync"))) + 1
 //@     iter ensures [fork-resets-the-activation]
 //@       isRecv(ev(old(evlen))) && evch(ev(old(evlen))) == gw.mch && is(evval(ev(old(evlen))), gatewayProbingReport) && old(gw.probing) != nil ==>
 //@         !gw.synchronized && gw.activated == nil && gw.probing == nil
